@@ -18,6 +18,7 @@ import (
 	"fmt"
 	gotypes "go/types"
 	"os"
+	"path/filepath"
 	"runtime"
 	"runtime/debug"
 	"sort"
@@ -151,6 +152,12 @@ func childMain(args []string) int {
 				}
 				if p := u.Package(pth); p != nil && len(p.Files()) > 0 {
 					bases[pth] = int(p.Files()[0].Pos())
+					// per file (key: package path + "/" + file name), for the position order inside a package
+					for _, f := range p.Files() {
+						if tf := p.FileSet().File(f.Pos()); tf != nil {
+							bases[pth+"/"+filepath.Base(tf.Name())] = tf.Base()
+						}
+					}
 				}
 			}
 		}
